@@ -319,6 +319,65 @@ def scratch_facts():
     return init_decommits, drop_decommits
 
 
+
+def stdin_reader():
+    """cmd.rs run_stdin: (size of the read block, whether UTF-8 is validated once on the whole
+    accumulated buffer after the read loop and nowhere inside it).  Never raises: an unknown shape
+    gives (0, False), which only the C14 proof obligations reject."""
+    try:
+        cmd = strip(read("src/bin/naija/cmd.rs"))
+        _, body = fn_body(cmd, "run_stdin")
+        m = re.search(r"let\s+mut\s+(\w+)\s*=\s*\[\s*0u8\s*;\s*([^\]]+)\]\s*;", body)
+        if not m or not re.search(r"\.read\(\s*&mut\s+%s\s*\)" % m.group(1), body):
+            return 0, False
+        block = const_expr(m.group(2))
+        lp = re.search(r"\bloop\s*\{", body)
+        if not lp:
+            return block, False
+        i, depth = lp.end(), 1
+        while i < len(body) and depth:
+            depth += {"{": 1, "}": -1}.get(body[i], 0)
+            i += 1
+        inside, after = body[lp.end():i - 1], body[i:]
+        ext = re.search(r"(\w+)\.extend_from_slice\(\s*&%s\[\s*\.\.\s*\w+\s*\]\s*\)" % m.group(1), inside)
+        if not ext or "from_utf8" in inside or "utf8" in inside.lower():
+            return block, False
+        buf = ext.group(1)
+        whole = re.search(r"match\s+std::str::from_utf8\(\s*&%s\s*\)\s*\{\s*Ok\(\s*_\s*\)\s*=>\s*unsafe\s*\{\s*"
+                          r"ArenaString::from_utf8_unchecked\(\s*%s\s*\)\s*\}" % (buf, buf), after)
+        unchecked = len(re.findall(r"from_utf8_unchecked", body))
+        return block, bool(whole) and unchecked == 1
+    except TranslatorError:
+        return 0, False
+
+
+GUARD_RE = re.compile(r"if\s+([^{}]+?)\s*\{[^{}]*?\breturn\b")
+
+
+def plan_and_returns(body, allowed_guards):
+    """(the Option plan from into_artifacts reaches run_with_analysis untouched with nothing that
+    can leave the function in between, number of `return`s that are not directly inside one of the
+    known guards).  Never raises."""
+    m = re.search(r"let\s*\(\s*(\w+)\s*,\s*(\w+)\s*\)\s*=\s*resolver\.into_artifacts\(\)\s*;", body)
+    passthrough = False
+    if m:
+        facts, plan = m.group(1), m.group(2)
+        r = re.search(r"\.run_with_analysis\(\s*\w+\s*,\s*&%s\s*,\s*%s\.as_ref\(\)\s*\)" % (facts, plan), body[m.end():])
+        if r:
+            between = body[m.end():m.end() + r.start()]
+            passthrough = not re.search(r"\breturn\b|\belse\b|\?|\bunwrap|\bexpect\b|\bpanic|\bexit\b|\bbreak\b|\b%s\b|\b%s\b" % (facts, plan), between)
+    total = len(re.findall(r"\breturn\b", body))
+    guarded = 0
+    for g in GUARD_RE.finditer(body):
+        if re.sub(r"\s+", "", g.group(1)) in allowed_guards:
+            guarded += 1
+    return passthrough, max(total - guarded, 0)
+
+
+CLI_GUARDS = {"!err.diagnostics.is_empty()", "resolver.errors.has_errors()", "err.has_errors()"}
+WASM_GUARDS = CLI_GUARDS | {"letErr(err)=arena::init(16*MEBI)", "!non_err.is_empty()"}
+
+
 def wasm_wiring():
     """(init capacity, events) of wasm/src/lib.rs run_source."""
     wasm = strip(read("wasm/src/lib.rs"))
@@ -399,6 +458,16 @@ def generate():
     A("Definition cli_resolve_guard : guard := %s.  Definition cli_resolve_exit : Z := %d." % (guards[1][0], EXIT_Z[guards[1][1]]))
     A("Definition cli_run_guard : guard := %s.      Definition cli_run_exit : Z := %d." % (guards[2][0], EXIT_Z[guards[2][1]]))
     A("Definition cli_final_exit : Z := %d." % EXIT_Z[final])
+    pt, ung = plan_and_returns(body, CLI_GUARDS)
+    A("(* the Option<plan> of resolver.into_artifacts() is handed to run_with_analysis as it is, with")
+    A("   nothing in between that can leave run_source; `return`s outside the three guards above *)")
+    A("Definition cli_plan_passthrough : bool := %s." % str(pt).lower())
+    A("Definition cli_unguarded_returns : nat := %d." % ung)
+    block, whole = stdin_reader()
+    A("(* cmd.rs run_stdin: size of the read block; UTF-8 is validated once, on the whole accumulated")
+    A("   buffer after the read loop, and nowhere inside the loop *)")
+    A("Definition cli_stdin_block : Z := %d." % block)
+    A("Definition cli_stdin_validates_whole_buffer : bool := %s." % str(whole).lower())
     A("")
 
     # ---- wasm
@@ -406,6 +475,15 @@ def generate():
     A("(* wasm/src/lib.rs run_source: init(capacity) at the start of every call, then *)")
     A("Definition wasm_capacity : Z := %d." % wasm_cap)
     A("Definition wasm_script : list wev :=\n  [%s]." % ";\n   ".join(wev))
+    try:
+        _, wb = fn_body(strip(read("wasm/src/lib.rs")), "run_source")
+        wguards = {g for g in WASM_GUARDS if not g.startswith("letErr")} | {
+            re.sub(r"\s+", "", g.group(1)) for g in GUARD_RE.finditer(wb) if re.sub(r"\s+", "", g.group(1)).startswith("letErr(err)=arena::init(")}
+        wpt, wung = plan_and_returns(wb, wguards)
+    except TranslatorError:
+        wpt, wung = False, 99
+    A("Definition wasm_plan_passthrough : bool := %s." % str(wpt).lower())
+    A("Definition wasm_unguarded_returns : nat := %d." % wung)
     A("")
 
     sites = reset_sites()
